@@ -38,7 +38,7 @@ def generate(r, tier):
     sc = {"prog": prog, "parser": kgen.pick_parser(r, prog, 0.05), "hash_salt": r.getrandbits(32),
           "policy": r.choice([None, "sdkconfig", "kconfig"])}
     sc["hand"] = [kgen.handwritten(r, prog) for _ in range(r.randint(0, 1))]
-    sc["ops"] = ops.gen_history(r, prog, r.randint(1, 25), weights={"read": 4, "edge": 10, "save": 3, "load": 4, "restart": 3, "member_bias": 0.35},
+    sc["ops"] = ops.gen_history(r, prog, r.randint(1, 25), weights={"read": 4, "edge": 10, "save": 3, "save_min": 5, "load": 4, "restart": 3, "member_bias": 0.35},
                                 hand_n=len(sc["hand"]), sane=0.85)
     return sc
 
@@ -102,8 +102,10 @@ def execute(sc, ctx):
     files = {}
     combos = [(False, False), (False, True), (True, False), (True, True)]
     rot = (sc["hash_salt"] >> 2) % 4
-    for labels, norm in combos[rot:] + combos[:rot]:
-        f = os.path.join(sb, "min_%d%d" % (labels, norm))
+    for vi, (labels, norm) in enumerate(combos[rot:] + combos[:rot]):
+        # the destinations are the slots earlier `save_min` operations of the history wrote to (any variant): a minimal
+        # configuration is normally saved over the previous one, whose text may be longer
+        f = node.slot("m%d" % (vi % 3)) if vi < 3 else os.path.join(sb, "min_%d%d" % (labels, norm))
         try:
             with simproc.quiet():
                 k.write_min_config(f, labels=labels, normalize_unset=norm)
